@@ -159,6 +159,10 @@ caller uses it). -/
 def bfs (g : Dag) (src : Nat) : Option (List Nat) :=
   bfsLoop g (g.nodes.length + 1) [src] [src]
 
+/-- `ExecutionGraph.status_subtree` (the default `bfs` order): the walk from `_source` (node 0)
+without `_source` itself - the rows of the status table, in order -/
+def statusOrder (g : Dag) : Option (List Nat) := (bfs g 0).map (·.filter (· != 0))
+
 /-! ### `dfs_subtree` (with the visited-set repair) -/
 
 structure FS where
